@@ -128,7 +128,14 @@ func (g *G) l4(v6 bool, maxData int) (util.Message, []byte, uint8, string) {
 		}
 		if len(pr.Wire) <= maxData {
 			g.Label("opaque_payload_is_" + pr.Kind)
-			return util.NewBuffer(cp(pr.Wire)), pr.Wire, proto, "other"
+			w := cp(pr.Wire)
+			if proto == protocol.Type_TCP && len(w) >= 14 {
+				// on the wire a TCP header has more bits than the library's TCP type models (RFC 3168 ECE/CWR,
+				// RFC 3540 NS, the reserved bits): in an opaque payload they are just bytes and must come back
+				w[12] |= g.U8("tcp_reserved_ns") & 0x0f
+				w[13] |= g.U8("tcp_ece_cwr") & 0xc0
+			}
+			return util.NewBuffer(cp(w)), w, proto, "other"
 		}
 	}
 	b, w := g.other("l4_other", maxData)
